@@ -44,6 +44,12 @@ class P(Prop):
             es, sg = G.tag_segs(rng, k, "ints")
             xs = sorted(G.queries(rng, es, 40), key=C.ordered_key)
             out.append(dict(op="evaluate_v_pt", ty="Poly0", segs=sg, xs=xs, meta={"class": "long"}))
+        for k in (32, 33, 64, 100):
+            es, sg = G.tag_segs(rng, k, "ints")
+            for _ in range(3):
+                a, b = rng.uniform(es[0], es[-1]), rng.uniform(es[0], es[-1])
+                xs = [C.bits(max(a, b)), C.bits(min(a, b))][:rng.choice([1, 2, 2])]
+                out.append(dict(op="evaluate_v", ty="Poly0", segs=sg, xs=xs, meta={"class": "long/few_args"}))
         MIN_, MAX_ = -1.7976931348623157e308, 1.7976931348623157e308
         for es in ([MIN_, 0.0, MAX_, float("inf")], [MIN_, MIN_, 1.0], [float("-inf"), MIN_, 0.0], [MAX_, float("inf")]):
             sg = [[C.bits(e), C.bits(float(i + 1))] for i, e in enumerate(es)]
